@@ -9,7 +9,7 @@
    the log-parameters held by the Go objects (only + and >), and the returned
    path is compared with the enumerated optimum in exact arithmetic. *)
 From Coq Require Import List Arith Bool ZArith QArith Qcanon Qabs Floats.
-From ADV Require Import Base.Corr C15.Model.
+From ADV Require Import Base.Corr C15.Model C15.ModelBuf.
 Import ListNotations.
 Open Scope nat_scope.
 
@@ -162,7 +162,108 @@ Definition mfails (c : mcase) : list nat :=
   end.
 Definition mcheck (c : mcase) : bool := match mfails c with [] => true | _ => false end.
 
-Inductive case := CH (c : hcase) | CM (c : mcase).
-Definition check (c : case) : bool := match c with CH h => hcheck h | CM x => mcheck x end.
-Definition fails (c : case) : list nat := match c with CH h => hfails h | CM x => mfails x end.
+(* ---- round 2: forward-backward on reused work matrices, one Baum-Welch step ---- *)
+Record brec := mkBR {
+  rN : nat;
+  rEm : list (list Q);                               (* emission probabilities [c][k] *)
+  rOA : list (list gres); rOB : list (list gres);    (* float64ForwardBackward on the shared matrices, columns 0..n-1 *)
+  rGA : list (list gres); rGB : list (list gres)     (* generic forwardBackward on shared matrices *)
+}.
+Record bwobs := mkBO {
+  boErr : bool; boLik : gres;
+  boPi : list gres; boTr : list (list gres); boTf : list (list gres);   (* hmm1 after the step *)
+  boGam : list (list gres)                                               (* gamma [c][l] handed to Emissions *)
+}.
+Record bcase := mkB {
+  bM : nat; bPiRaw : list Q; bTrRaw : list (list Q); bMap : list nat; bStart : list Z; bFinal : list Z;
+  bNe : nat;
+  bRecs : list brec;
+  bPlain : bwobs; bPois : bwobs;                     (* the public step as is / with poisoned work memory *)
+  bAccPi : list gres; bAccTr : list (list gres)      (* expected-count accumulators of thread 0 (poisoned run) *)
+}.
+
+Section BWCASE.
+  Variable c : bcase.
+  Let h := mkH (bM c) (bPiRaw c) (bTrRaw c) (bMap c) (bStart c) (bFinal c) [] [] [] [] [] [] [].
+  Let m := bM c.
+  Let ne := bNe c.
+  Let Pi := vecf 0%Qc (mPi h).
+  Let Tr := matf 0%Qc (mTr h).
+  Let Tf := matf 0%Qc (mTf h).
+  Let sm := vecf 0 (bMap c).
+  Let hasfinal := match bFinal c with [] => false | _ => true end.
+  Let em (r : brec) := matf 0%Qc (map qcl (rEm r)).
+  (* any value will do: the theorems say the result does not depend on it *)
+  Definition poison : @mat Qc := fun _ _ => Q2Qc 7.
+
+  (* the recursions record after record on the same matrices *)
+  Fixpoint reuse_ok (oa ob ga gb : @mat Qc) (recs : list brec) : bool :=
+    match recs with
+    | [] => true
+    | r :: rest =>
+        let n := rN r in
+        let oa' := oforward_buf OpsQc m Pi Tr Tf sm (em r) oa n in
+        let ob' := obackward_buf OpsQc m Tr Tf sm (em r) ob n in
+        let ga' := forward_buf OpsQc m Pi Tr Tf sm (em r) ga n in
+        let gb' := backward_buf OpsQc m Tr Tf sm (em r) gb n in
+        list_rel (list_rel approx) (mat_cols m oa' n) (rOA r) && list_rel (list_rel approx) (mat_cols m ob' n) (rOB r) &&
+        list_rel (list_rel approx) (mat_cols m ga' n) (rGA r) && list_rel (list_rel approx) (mat_cols m gb' n) (rGB r) &&
+        (* ... and against the pure model on fresh columns *)
+        list_rel (list_rel Qc_eqb) (mat_cols m oa' n) (forward OpsQc m Pi Tr Tf sm (em r) n) &&
+        list_rel (list_rel Qc_eqb) (mat_cols m ob' n) (backward OpsQc m Tr Tf sm (em r) n) &&
+        reuse_ok oa' ob' ga' gb' rest
+    end.
+  Definition chk_reuse : bool := reuse_ok poison poison poison poison (bRecs c).
+
+  Definition qsum (l : list Qc) : Qc := fold_right Qcplus 0%Qc l.
+  (* posterior expectations by explicit enumeration, summed over the records *)
+  Definition exp_pi (i : nat) : Qc :=
+    qsum (map (fun r => (enum_marginal OpsQc m Pi Tr Tf sm (em r) (rN r) 0 i /
+                         enum_likelihood OpsQc m Pi Tr Tf sm (em r) (rN r))%Qc) (bRecs c)).
+  Definition exp_tr (i j : nat) : Qc :=
+    qsum (map (fun r => qsum (map (fun k => (enum_pair OpsQc m Pi Tr Tf sm (em r) (rN r) k i j /
+                                              enum_likelihood OpsQc m Pi Tr Tf sm (em r) (rN r))%Qc)
+                                  (seq 0 (if hasfinal then rN r - 2 else rN r - 1)))) (bRecs c)).
+  Definition exp_lik : Qc :=
+    fold_right Qcmult 1%Qc (map (fun r => enum_likelihood OpsQc m Pi Tr Tf sm (em r) (rN r)) (bRecs c)).
+  Definition exp_gam (r : brec) (k cl : nat) : Qc :=
+    (qsum (map (fun i => if sm i =? cl then enum_marginal OpsQc m Pi Tr Tf sm (em r) (rN r) k i else 0%Qc) (seq 0 m)) /
+     enum_likelihood OpsQc m Pi Tr Tf sm (em r) (rN r))%Qc.
+
+  Definition obs_ok (o : bwobs) (lik : Qc) (npi : list Qc) (ntr ntf gam : list (list Qc)) : bool :=
+    negb (boErr o) && approx lik (boLik o) && list_rel approx npi (boPi o) &&
+    list_rel (list_rel approx) ntr (boTr o) && list_rel (list_rel approx) ntf (boTf o) &&
+    list_rel (list_rel approx) gam (boGam o).
+
+  Definition chk_bw : list nat :=
+    let recs := map (fun r => (rN r, em r)) (bRecs c) in
+    let multi := 1 <? length (nodup Z.eq_dec (bFinal c)) in
+    match (if multi then None else bw_thread OpsQc m ne Pi Tr Tf sm hasfinal poison poison recs) with
+    | None => if boErr (bPlain c) && boErr (bPois c) then [] else [2]
+    | Some s =>
+        match bw_new_pi OpsQc (bwPi s) (bStart c) with
+        | None => if boErr (bPlain c) && boErr (bPois c) then [] else [2]
+        | Some npi =>
+            let ntr := bw_new_tr OpsQc (bwTr s) in
+            let ntf := make_tf OpsQc ntr (bFinal c) in
+            let gam := map (fun cl => flat_map (fun g => map (fun col => nth cl col 0%Qc) g) (bwGam s)) (seq 0 ne) in
+            (if obs_ok (bPlain c) (bwLik s) npi ntr ntf gam then [] else [3]) ++
+            (if obs_ok (bPois c) (bwLik s) npi ntr ntf gam then [] else [4]) ++
+            (if list_rel approx (bwPi s) (bAccPi c) && list_rel (list_rel approx) (bwTr s) (bAccTr c) then [] else [5]) ++
+            (* the model's accumulators are the enumerated posterior expectations, exactly *)
+            (if list_rel Qc_eqb (bwPi s) (map exp_pi (seq 0 m)) &&
+                list_rel (list_rel Qc_eqb) (bwTr s) (map (fun i => map (exp_tr i) (seq 0 m)) (seq 0 m)) &&
+                Qc_eqb (bwLik s) exp_lik &&
+                list_rel (list_rel (list_rel Qc_eqb)) (bwGam s)
+                         (map (fun r => map (fun k => map (exp_gam r k) (seq 0 ne)) (seq 0 (rN r))) (bRecs c))
+             then [] else [6])
+        end
+    end.
+  Definition bfails : list nat := (if chk_reuse then [] else [1]) ++ chk_bw.
+End BWCASE.
+Definition bcheck (c : bcase) : bool := match bfails c with [] => true | _ => false end.
+
+Inductive case := CH (c : hcase) | CM (c : mcase) | CB (c : bcase).
+Definition check (c : case) : bool := match c with CH h => hcheck h | CM x => mcheck x | CB b => bcheck b end.
+Definition fails (c : case) : list nat := match c with CH h => hfails h | CM x => mfails x | CB b => bfails b end.
 Definition mism (cs : list case) : list nat := mismatches check cs.
